@@ -520,6 +520,9 @@ def gen_circuit_op(st, free, used_keys, depth, weights):
         use_ids = True
         if r.random() < 0.5:
             rep_ids = [_choice(r, ["r", "x", "0", "rep"]) + str(i) for i in range(reps)]
+    elif reps > 0 and u < 0.22:
+        # explicit ids that the operation is told not to use in its keys
+        rep_ids = [_choice(r, ["r", "x", "0", "rep"]) + str(i) for i in range(reps)]
     elif has_meas and reps == 1 and u < 0.3 and st.mode != "unitary":
         until = ("key", _choice(r, keys), -1) if r.random() < 0.7 else ("sympy", 0, (_choice(r, keys), keys[0]), 1)
         km = dict(kmap)
